@@ -255,6 +255,18 @@ func c06(r *rand.Rand, tier string, vseed int, tr *trace.Buf, tablePath string, 
 				pk2 = y.GetPK()
 				a2 = y.GetAddress()
 			}
+			if !tall || pl.seam || pl.h <= 10 {
+				// the third constructor: the key is the same function of the same inputs when they arrive
+				// as an extended seed (descriptor || seed)
+				z := xmss.NewXMSSFromExtendedSeed(x.GetExtendedSeed())
+				if z.GetPK() != pk || z.GetAddress() != x.GetAddress() || z.GetSeed() != x.GetSeed() {
+					pk2 = z.GetPK()
+					a2 = z.GetAddress()
+					if pk2 == pk { // the difference is in the address or the seed: make the comparison below fail
+						a2[0] ^= 0xff
+					}
+				}
+			}
 			xmss.VerifHashHook = hook
 			a1 := x.GetAddress()
 			v1 := xmss.Verify(msg, sig, pk)
